@@ -1,14 +1,20 @@
 FC = 'babylon::FutureContext<int, babylon_vf::Sched>'
+PR = 'babylon::Promise<int, babylon_vf::Sched>'
+SP = 'std::shared_ptr<babylon::FutureContext<int,babylon_vf::Sched>>'
+SPB = 'std::__shared_ptr<babylon::FutureContext<int,babylon_vf::Sched>,__gnu_cxx::_S_atomic>'
+SPA = 'std::__shared_ptr_access<babylon::FutureContext<int,babylon_vf::Sched>,__gnu_cxx::_S_atomic,0,0>'
 MOF = 'babylon::MoveOnlyFunction<void()>'
 GROUP = dict(
     prop='C08',
     driver='driver.cpp',
     spec='spec.h',
-    aliases=[(FC, 'FC'), ('babylon::Futex<babylon_vf::Sched, void>', 'Futex'), (MOF, 'Fn'), ('babylon_vf::', '')],
-    opaque_by_value=[MOF],
+    aliases=[(SP, 'CtxPtr'), (SPB, 'CtxPtrB'), (SPA, 'CtxPtrA'), (PR, 'Promise'), (FC, 'FC'), ('babylon::Futex<babylon_vf::Sched, void>', 'Futex'), (MOF, 'Fn'), ('babylon_vf::', '')],
+    opaque_by_value=[MOF, SP],
+    type_aliases={SPA + '::element_type': FC},
+    outside_methods={SP: ['operator->', 'operator bool', 'get'], SPB: ['operator bool', 'get'], SPA: ['operator->']},
     extern_re=[r'MoveOnlyFunction<void\s*\(\)>::', r'internal::future::run_callback'],
-    outside_funcs={'clock_gettime': 'vf_clock_gettime'},
-    roots=[FC + '::set_value', FC + '::wait_slow', FC + '::wait_for_slow', FC + '::get', FC + '::seal', FC + '::ready'],
+    outside_funcs={'clock_gettime': 'vf_clock_gettime', '__errno_location': 'vf_errno_location'},
+    roots=[FC + '::set_value', FC + '::wait_slow', FC + '::wait_for_slow', FC + '::get', FC + '::seal', FC + '::ready', PR + '::set_value'],
     reviewed_compiler_conditionals=[],
     assumptions=['SC; the READY bit of the futex word is never taken back (only set_value writes it; clear() is documented as not concurrent)',
                  'CLOCK_MONOTONIC is non-decreasing and below 2^32 s; timeouts <= 2^62 ns (above that the signed sum wraps: benign natively, see DESIGN F-e)',
@@ -17,6 +23,7 @@ GROUP = dict(
         dict(id='C08.wait_slow', enforce='FC_wait_slow', loops=True),
         dict(id='C08.wait_for_slow', enforce='FC_wait_for_slow', loops=True, timeout=600),
         dict(id='C08.get', enforce='FC_get', replace=['FC_wait_slow']),
+        dict(id='C08.promise.set_value', enforce='Promise_set_value__int', replace=['FC_set_value__int_void']),
         dict(id='C08.set_value.bounded', harness='h_set_value', unwind=5, bounded='<= 3 callbacks registered before set_value; any waiter count; unwind 5'),
     ],
 )
